@@ -29,16 +29,43 @@ fn c01_space(cx: &Ctx) -> (Space, Vec<char>, usize) {
     }
 }
 
+/// second sweep: a smaller pattern space over longer texts (two letters), for defects that need
+/// more characters than the main sweep's texts have (several loop iterations, longer backreferences)
+fn long_text_space(cx: &Ctx) -> (Space, Vec<char>, usize) {
+    let mut g = space::fancy_grammar(vec![
+        frmc_core::ast::lit("a"),
+        frmc_core::ast::lit("b"),
+        Node::Dot,
+        Node::Assert(frmc_core::ast::A::End),
+        Node::Assert(frmc_core::ast::A::WordB),
+        Node::Backref(1),
+    ]);
+    g.unary.push(space::Unary::Rep(3, Some(3), frmc_core::ast::Mode::Greedy));
+    g.unary.push(space::Unary::Rep(0, Some(2), frmc_core::ast::Mode::Lazy));
+    g.unary.push(space::Unary::Rep(3, None, frmc_core::ast::Mode::Greedy));
+    if cx.quick() {
+        (Space::new().exh("long-texts", g, 3).ctxfill(2, 1, &|_| true), vec!['a', 'b'], 5)
+    } else {
+        (Space::new().exh("long-texts", g, 4).ctxfill(2, 1, &|_| true), vec!['a', 'b'], 6)
+    }
+}
+
 pub fn run_c01(cx: &Ctx) -> i32 {
     let (space, alphabet, max_len) = c01_space(cx);
     let cfg = RefCfg { check_span: true, check_groups: false, check_is_match: true, need_scoped: true, filter: None, shadow: false, alphabet: alphabet.clone(), max_len };
-    let t = refsweep::run(cx, &space, &cfg);
+    let mut t = refsweep::run(cx, &space, &cfg);
+    let (lspace, lalpha, llen) = long_text_space(cx);
+    let lcfg = RefCfg { alphabet: lalpha, max_len: llen, ..RefCfg { check_span: true, check_groups: false, check_is_match: true, need_scoped: true, filter: None, shadow: false, alphabet: vec![], max_len: 0 } };
+    let t2 = refsweep::run(cx, &lspace, &lcfg);
+    t.count("long_text_sweep_programs", t2.programs);
+    t.count("long_text_sweep_evaluations", t2.evaluations);
+    t.merge(t2);
     finish(
         cx,
         t,
         Finish {
             rule: format!(
-                "every pattern of {} (scoped references) x every text over {:?} up to length {} x every char-boundary start offset; captures_from_pos (and is_match at offset 0) on the real crate versus the reference matcher; non-trivial = the pattern is compiled to a VM program and the reference finds a match or has to try more than one start position; cases in which the reference takes an empty optional iteration of an unbounded repeat (class F1) are outside its domain and skipped (counted)",
+                "every pattern of {} (scoped references) x every text over {:?} up to length {} x every char-boundary start offset, plus a second sweep of a smaller space (node bound 3 quick / 4 thorough, with {{3}}, {{0,2}}?, {{3,}} repeats, and the contexts) over all texts over [a,b] up to length 5 quick / 6 thorough; captures_from_pos (and is_match at offset 0) on the real crate versus the reference matcher; non-trivial = the pattern is compiled to a VM program and the reference finds a match or has to try more than one start position; cases in which the reference takes an empty optional iteration of an unbounded repeat (class F1) are outside its domain and skipped (counted)",
                 space.describe(), alphabet, max_len
             ),
             exhaustive: true,
@@ -59,13 +86,19 @@ pub fn run_c02(cx: &Ctx) -> i32 {
         f.n_groups >= 1
     }
     let cfg = RefCfg { check_span: false, check_groups: true, check_is_match: false, need_scoped: true, filter: Some(has_group), shadow: false, alphabet: alphabet.clone(), max_len };
-    let t = refsweep::run(cx, &space, &cfg);
+    let mut t = refsweep::run(cx, &space, &cfg);
+    let (lspace, lalpha, llen) = long_text_space(cx);
+    let lcfg = RefCfg { check_span: false, check_groups: true, check_is_match: false, need_scoped: true, filter: Some(has_group), shadow: false, alphabet: lalpha, max_len: llen };
+    let t2 = refsweep::run(cx, &lspace, &lcfg);
+    t.count("long_text_sweep_programs", t2.programs);
+    t.count("long_text_sweep_evaluations", t2.evaluations);
+    t.merge(t2);
     finish(
         cx,
         t,
         Finish {
             rule: format!(
-                "every pattern with at least one capture group of {} (scoped references) x every text over {:?} up to length {} x every offset; whenever engine and reference both match with the same overall span, every group i>=1 and the number of groups are compared; span divergences are left to C01; non-trivial as in C01",
+                "every pattern with at least one capture group of {} (scoped references) x every text over {:?} up to length {} x every offset (plus the long-text sweep of C01); whenever engine and reference both match with the same overall span, every group i>=1 and the number of groups are compared; span divergences are left to C01; non-trivial as in C01",
                 space.describe(), alphabet, max_len
             ),
             exhaustive: true,
